@@ -365,14 +365,16 @@ func (w *World) fireEarly(ev *Event) {
 	if idx < 0 {
 		return
 	}
+	// take it out of the queue first: what it does may queue further events
+	heap.Remove(&w.q, idx)
 	if ev.Try != nil {
 		if !ev.Try() {
-			return // the reader is busy: the datagram stays in flight
+			heap.Push(&w.q, ev) // the reader is busy: the datagram stays in flight
+			return
 		}
 	} else {
 		ev.Do()
 	}
-	heap.Remove(&w.q, idx)
 	w.earlyLeft--
 	w.Events++
 	w.FaultHit("early-" + ev.Name)
